@@ -12,7 +12,15 @@
                         n keys drawn so far
      pongs k4 client n qs = the frames [rfc_frame true 10 key q] for the ping payloads qs, in order
      bumps client n k = key index after writing k more frames
-     wf_len p         = length p < 2^64 ;  wf_item = wf_len of every payload in the item *)
+     wf_len p         = length p < 2^64 ;  wf_item / wf_frag = wf_len of every payload in the item / fragment
+     stream_ok p more = the pending-fragment state p fits the stream: more = [] and nothing half-assembled,
+                        or more <> [] (continuation frames first) and a first fragment has been seen
+     completed p more = the message those continuation frames complete (type of the pending first fragment,
+                        pending bytes ++ their payloads);  stream_pings = the ping payloads in stream order
+     after_stream / out_stream s more l = state and output after that stream from state s: pongs only while
+                        the endpoint's close frame has not been sent (pongs_if (csent s)), _buffer empty again
+     close_reply cs n = [] if the close frame was already sent, else [rfc_frame true 8 (okey n) []]
+     masked_as b w    = the mask bit (bit 7 of the second byte) of the written frame w is b *)
 From Coq Require Import List NArith Bool.
 From Circ Require Import Lib.Obs Model.WebSocket Proofs.WebSocketP.
 Import ListNotations.
@@ -79,15 +87,74 @@ Proof. exact recv_items_any_cut. Qed.
 Print Assumptions C17_fragmentation.
 
 (* ---- close: after the peer's close frame nothing that follows is delivered; the close frame is
-   answered by one close frame; the codec has then both received and sent close *)
+   answered by one close frame (masked iff client); the codec has then both received and sent close *)
 Theorem C17_close : forall (k4 : nat -> key4) (client : bool) (l : list item) n k q junk chunks,
   Forall wf_item l -> wf_len q ->
   concat chunks = items_bytes l ++ rfc_frame true 8 k q ++ junk ->
   recv_all (keyf k4) client (clean n) chunks =
-  ROk (mkS [] (mkP [] None (bumps client n (length (expected_pings l)))) true true,
-       mkO (expected_msgs l) (pongs k4 client n (expected_pings l) ++ [[136; 0]]) 1).
+  ROk (mkS [] (mkP [] None (bump client (bumps client n (length (expected_pings l))))) true true,
+       mkO (expected_msgs l)
+           (pongs k4 client n (expected_pings l)
+            ++ [rfc_frame true 8 (okey k4 client (bumps client n (length (expected_pings l)))) []]) 1).
 Proof. exact recv_items_close_any_cut. Qed.
 Print Assumptions C17_close.
+
+(* ---- the same from ANY codec state s that has not received close: close frame already sent or not,
+   fragments of a message pending or not, bytes of an unfinished frame in _buffer or not (they count as the
+   beginning of the stream).  The stream = continuation frames completing the pending message (if any),
+   then whole items; every cut into reads.  Delivered: the completed pending message, then the items'
+   messages.  Written: one pong per ping while the close frame has not been sent, none after. *)
+Theorem C17_fragmentation_any_state : forall (k4 : nat -> key4) (client : bool) s more l c cs,
+  crecv s = false ->
+  stream_ok (ps s) more -> Forall wf_frag more -> Forall wf_item l ->
+  buf s ++ concat (c :: cs) = conts_bytes more ++ items_bytes l ->
+  recv_all (keyf k4) client s (c :: cs) = ROk (after_stream client s more l, out_stream k4 client s more l).
+Proof. exact recv_stream_any_cut. Qed.
+Print Assumptions C17_fragmentation_any_state.
+
+Theorem C17_close_any_state : forall (k4 : nat -> key4) (client : bool) s more l k q junk c cs,
+  crecv s = false ->
+  stream_ok (ps s) more -> Forall wf_frag more -> Forall wf_item l -> wf_len q ->
+  buf s ++ concat (c :: cs) = conts_bytes more ++ items_bytes l ++ rfc_frame true 8 k q ++ junk ->
+  recv_all (keyf k4) client s (c :: cs) =
+  ROk (let s1 := after_stream client s more l in
+       mkS [] (mkP [] (ptype (ps s1)) (if csent s then nk (ps s1) else bump client (nk (ps s1)))) true true,
+       mkO (delivered (out_stream k4 client s more l))
+           (written (out_stream k4 client s more l)
+            ++ close_reply k4 client (csent s) (nk (ps (after_stream client s more l)))) 1).
+Proof. exact recv_stream_close_any_cut. Qed.
+Print Assumptions C17_close_any_state.
+
+(* ---- RFC 6455 5.1: whatever operation (read with pongs / close reply, application write, application
+   close) in whatever state: every frame a client endpoint writes is masked, every frame a server
+   endpoint writes is unmasked (C17_client_close_masked.patch makes this true for the close frame) *)
+Theorem C17_client_frames_masked : forall (k4 : nat -> key4) (client : bool) s o s' x,
+  step (keyf k4) client s o = ROk (s', x) -> Forall (masked_as client) (written x).
+Proof. exact step_masked. Qed.
+Print Assumptions C17_client_frames_masked.
+
+(* ---- opening handshake, client side (client.py + protocols/http.py): reads are accumulated until the
+   101 response's header block (first CRLF CRLF) is complete; whatever follows it -- in the same read or
+   later, the response itself cut anywhere -- reaches the codec exactly once, as one read would *)
+Theorem C17_no_bytes_lost_at_upgrade : forall (keyfn : nat -> list N) (client : bool) chunks h rest,
+  split_head (concat chunks) = Some (h, rest) ->
+  cread_all keyfn client (CHandshake []) chunks = lift_open (recv keyfn client init rest).
+Proof. exact client_no_bytes_lost_start. Qed.
+Print Assumptions C17_no_bytes_lost_at_upgrade.
+
+(* ---- dispatcher.py: one codec per upgraded socket; what socket k's codec delivers and writes, and its
+   final state, depend on k's own operations only; after disconnect(k) reads for k are not decoded *)
+Theorem C17_dispatcher_isolation : forall (keyfn : nat -> list N) (client : bool) k ops t t' t1 xs,
+  t k = t' k ->
+  drun keyfn client t ops = ROk (t1, xs) ->
+  exists t2, drun keyfn client t' (for_sock k ops) = ROk (t2, outs_of k xs) /\ t2 k = t1 k.
+Proof. exact dispatcher_isolation. Qed.
+Print Assumptions C17_dispatcher_isolation.
+
+Theorem C17_disconnect_forgets : forall (keyfn : nat -> list N) (client : bool) t k d,
+  dstep keyfn client (t_set t k None) (DRead k d) = ROk (t_set t k None, (k, no_out)).
+Proof. exact disconnect_forgets. Qed.
+Print Assumptions C17_disconnect_forgets.
 
 Theorem C17_nothing_delivered_after_close : forall (keyfn : nat -> list N) (client : bool) s c,
   crecv s = true -> recv keyfn client s c = ROk (s, no_out).
@@ -154,4 +221,37 @@ Proof. vm_compute. reflexivity. Qed.
 Example C17_ex_send :
   send (keyf ex_k4) true (clean 0) true [104; 105] =
   ROk (clean 1, mkO [] [[129; 130; 1; 2; 3; 4; 105; 107]] 0).
+Proof. vm_compute. reflexivity. Qed.
+
+(* a client endpoint's close frame is masked with the drawn key; its reply to the peer's close too *)
+Example C17_ex_client_close :
+  step (keyf ex_k4) true (clean 0) Close =
+  ROk (mkS [] (mkP [] None 1) false true, mkO [] [[136; 128; 1; 2; 3; 4]] 0)
+  /\ recv_all (keyf ex_k4) true (clean 0) [[136]; [0]] =
+     ROk (mkS [] (mkP [] None 1) true true, mkO [] [[136; 128; 1; 2; 3; 4]] 1).
+Proof. split; vm_compute; reflexivity. Qed.
+
+(* a state in the middle of things: close already sent, text fragment "ab" pending, first byte of the next
+   frame in the buffer; the stream goes on with ping, final continuation "c", then a binary message *)
+Definition ex_mid : st := mkS [137] (mkP [97; 98] (Some 1) 3) false true.
+Definition ex_more : list frag := [(None, [99], [])].
+Example C17_ex_any_state :
+  crecv ex_mid = false /\ stream_ok (ps ex_mid) ex_more /\ Forall wf_frag ex_more
+  /\ recv_all (keyf ex_k4) false ex_mid [[1]; [80; 128; 1]; [99; 130; 1; 7]] =
+     ROk (mkS [] (mkP [] None 3) false true, mkO [(true, [97; 98; 99]); (false, [7])] [] 0).
+Proof. repeat split; try (repeat constructor; fail); try (exists 1; reflexivity). Qed.
+
+(* the 101 response cut inside its CRLF CRLF, a text message "hi" right behind it, cut again *)
+Example C17_ex_upgrade :
+  cread_all (keyf ex_k4) true (CHandshake [])
+    [[72; 84; 84; 80; 13; 10; 65; 58; 66; 13]; [10; 13]; [10; 129; 2; 104]; [105]]
+  = ROk (COpen (clean 0), mkO [(true, [104; 105])] [] 0).
+Proof. vm_compute. reflexivity. Qed.
+
+Example C17_ex_dispatcher :
+  match drun (keyf ex_k4) false (t_empty) [DRead 1 [129; 1; 97]; DUpgrade 1; DUpgrade 2; DRead 1 [129]; DRead 2 [129; 1; 98];
+                                 DRead 1 [1; 99]; DDisconnect 1; DRead 1 [129; 1; 100]] with
+  | ROk (_, xs) => map (fun x => (fst x, delivered (snd x))) xs
+  | _ => []
+  end = [(1%nat, []); (1%nat, []); (2%nat, []); (1%nat, []); (2%nat, [(true, [98])]); (1%nat, [(true, [99])]); (1%nat, []); (1%nat, [])].
 Proof. vm_compute. reflexivity. Qed.
